@@ -231,6 +231,10 @@ func c20(c *Ctx) {
 	o.ExpectEmpty("Regs.v", "R_bad_entries", "violation", "a register's name/number/width/byte mask/flags do not denote the hardware register (table row index)")
 	o.ExpectTrue("Regs.v", "R_complete", "violation", "the set of views is not exactly the hardware's (missing or invented view, duplicate identity)")
 	o.ExpectEmpty("Regs.v", "R_conv_mismatch", "mismatch", "model reg_as vs As8L..As64/AsX..AsZ on physical and virtual registers")
+	// the operand types that name one hardware register (al, cl, ax, eax, rax, xmm0) denote exactly that
+	// register: no other view, no other index, and never a virtual register whose number happens to coincide
+	fixedFile := predicateMatrixFor(c, dumpForms(c.Repo), map[string]bool{"AL": true, "CL": true, "AX": true, "EAX": true, "RAX": true, "XMM0": true}, "Fixed.v")
+	defer o.Stage(fixedFile)
 	o.ExpectEmpty("Regs.v", "R_lookup_violation", "violation", "binding a virtual register to its allocated physical ID does not give the table entry with exactly that ID and byte mask (a view that does not exist was manufactured, or the width changed)")
 	o.ExpectEmpty("Regs.v", "R_conv_violation", "violation", "a view conversion changed the register identity, did not yield the requested width, or manufactured a view")
 	o.Plan.Rule = "exhaustive: all physical registers of all families (dumped at run time and cross-checked against a go/ast reading of reg/x86.go) x all width views; 40 virtual registers x all conversions incl. chains; non-trivial = the requested view differs from the current one; distinct by (register, target view)"
